@@ -443,12 +443,21 @@ def autotool(selector, undo=False):
     if undo:
         rval = rval.wrap_functions(_untooler)
     else:
-        rval = rval.wrap_functions(_tooler)
+        done = []
+
+        def tool(fn, captures):
+            fn = _tooler(fn, captures)
+            done.append((fn, captures))
+            return fn
+
         try:
+            rval = rval.wrap_functions(tool)
             verify(rval)
         except Exception:
-            # The selector is refused: leave nothing instrumented behind
-            rval.wrap_functions(_untooler)
+            # The selector is refused, or one of its functions cannot be
+            # tooled: leave nothing instrumented behind
+            for fn, captures in reversed(done):
+                _untooler(fn, captures)
             raise
     return rval
 
